@@ -74,7 +74,9 @@ def record(s, frag, conf=None, objs=None):
     E = constants.E
 
     def go(strict):
-        p = html5parser.HTMLParser(strict=strict) if objs is None else objs[1 if strict else 0]
+        p = objs[1 if strict else 0] if objs is not None else None
+        if p is None:
+            p = html5parser.HTMLParser(strict=strict)
         try:
             if frag:
                 p.parseFragment(s, container=frag)
@@ -95,7 +97,8 @@ def record(s, frag, conf=None, objs=None):
             msg = str(e2) == E[code] % dv
         except Exception:      # noqa
             msg = False
-    norm = s.replace("\r\n", "\n").replace("\r", "\n")
+    text = s.decode("utf-8") if isinstance(s, bytes) else s          # byte inputs here are valid UTF-8 declared (late) as such
+    norm = text.replace("\r\n", "\n").replace("\r", "\n")
     lines = [len(x) for x in norm.split("\n")]
     slack = eof_unget_slack(norm)
     return {"ns": {"out": o1, "errs": rows},
@@ -123,6 +126,25 @@ def inputs(ctx):
     return out
 
 
+def late_meta_inputs(rng, n):
+    """byte strings (no BOM, no transport encoding) whose <meta charset=utf-8> comes late: beyond the 1024-byte prescan (the
+    parser switches from the tentative encoding and parses again) and, for most, beyond the first 10240-character chunk
+    of the stream; the padding has newlines; error-producing markup follows.  The chunk boundary falls inside the
+    padding comment and the whole input stays below two chunks, so no un-get happens at a chunk boundary (C05)."""
+    out = []
+    tails = ["<p>na\u00efve</b> x</p>", "<table>x</table>", "</i>\n<b><p></b>", "<a b=\"c\"", "<div>\n</span>\n<!-", "<title>caf\u00e9</title><p>\n<li></ul>",
+             "<svg><p>", "<select><table>", "\n\n</p>\n<h1><h2>x"]
+    for k in range(n):
+        lines = rng.randint(300, 330) if k % 4 else rng.randint(30, 60)           # ~40 chars each: > 10240 or just > 1024
+        pad = "\n".join("  licence text line %04d ................" % i for i in range(lines))
+        head = rng.choice(["<!DOCTYPE html>\n<html>\n<head>\n", "<!DOCTYPE html>", "", "<html><head>\n"])
+        tail = rng.choice(tails) + (corpus.soup(rng) if rng.random() < 0.5 else "")
+        doc = head + "<!--\n" + pad + "\n-->\n<meta charset=\"utf-8\">\n" + tail
+        if len(doc) < 20000:
+            out.append(doc.encode("utf-8", "replace"))
+    return out
+
+
 def _rec_item(item):
     s, frag, conf = item
     return record(s, frag, conf)
@@ -135,16 +157,31 @@ FORMISH = ["<!DOCTYPE html><title>t</title><form action=\"/s\"><p><input name=a>
            "<!DOCTYPE html><title>t</title><p><b><i>x</i></b>", "<b><p></b>x", "<a><table><a>", "<svg><p>", "<h1><h2>x", "</p>"]
 
 
+QUIRKS_DOCS = ["x", "<p>a", "<!DOCTYPE html PUBLIC \"-//W3C//DTD HTML 3.2 Final//EN\"><p>q",
+               "<!DOCTYPE html PUBLIC \"-//W3C//DTD HTML 4.01 Transitional//EN\"><title>t</title>",
+               "<!DOCTYPE html PUBLIC \"-//W3C//DTD XHTML 1.0 Transitional//EN\" \"http://www.w3.org/TR/xhtml1/DTD/xhtml1-transitional.dtd\"><title>t</title>",
+               "<!DOCTYPE html PUBLIC \"-//W3C//DTD HTML 4.01 Frameset//EN\" \"x\"><title>t</title>", "<!DOCTYPE html><title>t</title><p>n"]
+PTABLE = ["<p><table></table></p>", "<p>a<table><tr><td>x</table>b</p>", "<div><p><table></table></div>", "<p><table>"]
+FRAG_CONTAINERS = ["div", "body", "td", "li", "span", "table", "p"]
+
+
 def _rec_sequence(seq):
-    """the same input sequence on ONE long-lived non-strict object and ONE long-lived strict object"""
+    """the same input sequence on ONE long-lived non-strict object and ONE long-lived strict object.  Three records per
+    input: (long-lived non-strict, long-lived strict), (BRAND-NEW non-strict, long-lived strict), (long-lived non-strict,
+    brand-new strict): the strict theorems hold against a fresh parse of the same input whatever the objects saw before"""
     from html5lib import html5parser
     objs = [html5parser.HTMLParser(strict=False), html5parser.HTMLParser(strict=True)]
+    shadow = [html5parser.HTMLParser(strict=False), html5parser.HTMLParser(strict=True)]      # second long-lived pair, same history
     out = []
     for s, frag, conf in seq:
-        # C12's listed leak (table text pending at an abort) is not this property's business: start from clean objects then
-        if any(lc.persistent(o)["pend"] for o in objs):
+        # C12's (repaired) leak of table text pending at an abort is not this property's business: start from clean objects then
+        if any(lc.persistent(o)["pend"] for o in objs + shadow):
             objs = [html5parser.HTMLParser(strict=False), html5parser.HTMLParser(strict=True)]
+            shadow = [html5parser.HTMLParser(strict=False), html5parser.HTMLParser(strict=True)]
         out.append(record(s, frag, conf, objs))
+        # the shadow pair gets the same history, but each of its halves is judged against a brand-new partner
+        out.append(record(s, frag, conf, [None, shadow[1]]))
+        out.append(record(s, frag, conf, [shadow[0], None]))
     return out
 
 
@@ -203,6 +240,8 @@ def run(ctx):
         doc, a, c = conform.conforming(ctx.rng, amp=feats[0] and "amp-not-ambiguous-reported" in listed,
                                        cap=feats[1] and "caption-implicit-end-reported" in listed)
         items.append((doc, None, (a, c)))
+    for b in late_meta_inputs(ctx.rng, 24 if ctx.quick else 400):
+        items.append((b, None, None))
     # the listed witnesses, always
     for key, k in sorted(ctx.open_keys.items()):
         w = k.get("witness", {})
@@ -226,7 +265,7 @@ def run(ctx):
     consts = "CONSTANT KnownDefects = {%s}\n" % c12.dset(listed)
     idx = {id(t): i for i, t in enumerate(recs)}
     ncrash = 0
-    ctx.sample({"code_to_spec_input": items[len(items) // 3][0][:120], "record": recs[len(items) // 3]})
+    ctx.sample({"code_to_spec_input": repr(items[len(items) // 3][0][:120]), "record": recs[len(items) // 3]})
     for tr, v in core.validate_traces(ctx, "Trace_Strict", recs, "trace", consts=consts):
         s, frag, conf = items[idx[id(tr)]]
         case = {"kind": "input", "input": s, "container": frag, "conforming": conf is not None, "record": tr, "verdict": v}
@@ -247,13 +286,18 @@ def run(ctx):
             if r < 0.4:
                 doc, a, c = conform.conforming(ctx.rng)
                 seq.append((doc, None, (a, c)))
-            elif r < 0.7:
+            elif r < 0.6:
                 seq.append((ctx.rng.choice(FORMISH), ctx.rng.choice([None, None, "div", "table"]), None))
+            elif r < 0.8:
+                # a document that sets the compatibility mode, then a fragment whose errors depend on it
+                seq.append((ctx.rng.choice(QUIRKS_DOCS), None, None))
+                seq.append((ctx.rng.choice(PTABLE), ctx.rng.choice(FRAG_CONTAINERS), None))
             else:
-                seq.append((ctx.rng.choice(ins), None, None))
+                seq.append((ctx.rng.choice(QUIRKS_DOCS), None, None))
+                seq.append((ctx.rng.choice(ins), ctx.rng.choice(FRAG_CONTAINERS), None))
         seqs.append(seq)
     recs2 = core.parallel(_rec_sequence, seqs, chunk=50)
-    flat_items = [it for seq in seqs for it in seq]
+    flat_items = [it for seq in seqs for it in seq for _rep in range(3)]
     flat_recs = [r for rr in recs2 for r in rr]
     idx2 = {id(t): i for i, t in enumerate(flat_recs)}
     for tr, v in core.validate_traces(ctx, "Trace_Strict", flat_recs, "trace-reused", consts=consts):
